@@ -92,6 +92,9 @@ pub struct RunStats {
     pub pushes: u64,
     #[serde(default)]
     pub preempt_points: u64,
+    /// threads created by the code under test itself (outside the simulated pool)
+    #[serde(default)]
+    pub foreign_threads: u64,
     pub steals: u64,
     pub injections: u64,
     pub handoffs: u64,
@@ -112,6 +115,7 @@ impl RunStats {
             max_options: t.max_options,
             pushes: t.pushes,
             preempt_points: t.preempt_points,
+            foreign_threads: 0,
             steals: t.steals,
             injections: t.injections,
             handoffs: t.handoffs,
@@ -183,6 +187,7 @@ pub fn run_sim_warm<R: Send>(env: &Env, warm: impl Fn() + Sync + Send, f: impl F
     crate::driver::set_cpus(env.cpus.max(1));
     let saved_vars = set_env_vars(env.envvars_seed);
     seams::set_envvars_seed(env.envvars_seed);
+    seams::set_foreign_seed(env.sched_seed);
     sim::reset_pool_ids(0);
     sim::set_default_config(cfg.clone());
     sim::install_global(cfg);
@@ -224,9 +229,13 @@ pub fn run_sim_warm<R: Send>(env: &Env, warm: impl Fn() + Sync + Send, f: impl F
     let trace = sim::shutdown_global().expect("global pool");
     crate::driver::set_cpus(1);
     seams::set_envvars_seed(0);
+    let foreign_threads = seams::foreign_threads();
+    seams::set_foreign_seed(0);
     restore_env_vars(saved_vars);
     let results = results.map_err(|_| LAST_PANIC.lock().map(|g| g.clone()).unwrap_or_default());
-    SimOutcome { results, stats: RunStats::from(&trace, counters), choices: trace.nonzero }
+    let mut stats = RunStats::from(&trace, counters);
+    stats.foreign_threads = foreign_threads;
+    SimOutcome { results, stats, choices: trace.nonzero }
 }
 
 /// `run_sim` for a workload that can only run once (consumes captured values);
